@@ -125,15 +125,17 @@ func observe(text string, sniff bool) (o obs) {
 	return o
 }
 
-// decoded: what charset.NewReader (the first thing ach.NewReader does) makes of a text that is not UTF-8 — the
-// bytes the framing then sees.  The same call as in NewReaderWithContentType(r, "text/plain").
-func decoded(text string) (out string, ok bool) {
+// decoded: what charset.NewReader (the first thing NewReaderWithContentType does) makes of a text that is not
+// UTF-8 — the bytes the framing then sees.  With "text/plain" the character set is sniffed (windows-1252 for such a
+// text); with charset=utf-8 the decoder of golang.org/x/text replaces ill-formed input by U+FFFD, ONE for a
+// truncated multi-byte prefix (F2 97 followed by a blank), where bufio.ScanRunes alone would give one per byte.
+func decoded(text, contentType string) (out string, ok bool) {
 	defer func() {
 		if recover() != nil {
 			ok = false
 		}
 	}()
-	rr, err := charset.NewReader(strings.NewReader(text), "text/plain")
+	rr, err := charset.NewReader(strings.NewReader(text), contentType)
 	if err != nil || rr == nil {
 		return "", false
 	}
@@ -460,20 +462,27 @@ func run(args []string) {
 	emit := func(text, what string) {
 		var o obs
 		if !utf8.ValidString(text) {
+			// a text that is not UTF-8 reaches the framing through a decoder: alternately the sniffing constructor
+			// (ach.NewReader) and the declared-UTF-8 one; the model reads what the real decoder delivers —
+			// C02_reader_domain holds of every byte string, in particular of that (C02_reader_domain_decoded)
 			nonUTF8++
-		}
-		if !utf8.ValidString(text) && nonUTF8%2 == 0 {
-			// every other text that is not UTF-8 goes through the default constructor, which decodes it (windows-1252)
-			// before the framing; the model reads the decoded text: C02_reader_domain holds of every byte string, in
-			// particular of what a decoder delivers (C02_reader_domain_decoded)
-			if dt, ok := decoded(text); ok && utf8.ValidString(dt) {
-				o = observe(text, true)
+			sniff := nonUTF8%2 == 0
+			ct := "text/plain; charset=utf-8"
+			if sniff {
+				ct = "text/plain"
+			}
+			o = observe(text, sniff)
+			if dt, ok := decoded(text, ct); ok && utf8.ValidString(dt) {
 				text = dt
-				what += " (sniffed character set, decoded)"
-				sum.Dist["not-utf8-decoded-"+strings.ToLower(o.tag)]++
+				if sniff {
+					what += " (sniffed character set, decoded)"
+					sum.Dist["not-utf8-sniffed-"+strings.ToLower(o.tag)]++
+				} else {
+					what += " (declared UTF-8, decoded)"
+					sum.Dist["not-utf8-declared-"+strings.ToLower(o.tag)]++
+				}
 			} else {
 				sum.Dist["not-utf8-decoder-failed"]++
-				o = observe(text, false)
 			}
 		} else {
 			o = observe(text, false)
